@@ -157,6 +157,19 @@ type ExtractCfg struct {
 	// kind "assign": the right-hand side of the nth assignment (`=` or `:=`, one variable) to this local variable,
 	// as a function of the variables of "vars" (calls are translated as everywhere; anything else is rejected)
 	Target string `json:"target"`
+	// round 7 (extract.go).  "rich": the candidates of kind if / for / case are the conditions whose free identifiers
+	// are listed variables, constants, packages and functions — field reads, indexing, calls (callee table,
+	// translated functions) allowed; the predicate gets the panic layer when it can panic.  New kinds: "case" (the
+	// nth case clause of the switch statements: tag == v1 || …), "arg" (argument "arg" of the nth call whose
+	// rendered callee ends in "call"), "return" (result "result" of the nth return), "loop" (the nth for / range /
+	// Visit-closure statement: the values of "results" — default: of the variables it assigns — after it),
+	// "closure" (the body of the nth function literal, likewise).  A key of "vars" may be a selector path
+	// ("o.closed"): that expression is then read as a variable (parameter name: dots replaced by underscores).
+	Rich    bool     `json:"rich"`
+	Call    string   `json:"call"`
+	Arg     int      `json:"arg"`
+	Result  int      `json:"result"`
+	Results []string `json:"results"`
 }
 
 type Callee struct {
@@ -385,6 +398,8 @@ func (t *translator) typeOf(p *pkgInfo, f *ast.File, e ast.Expr) string {
 		}
 	case *ast.MapType:
 		return "map[" + t.typeOf(p, f, x.Key) + "]" + t.typeOf(p, f, x.Value)
+	case *ast.ChanType:
+		return "chan " + t.typeOf(p, f, x.Value) // opaque: needs a configured Lean type
 	case *ast.StructType:
 		if x.Fields == nil || len(x.Fields.List) == 0 {
 			return "struct{}"
@@ -427,7 +442,7 @@ func mapParts(tp string) (string, string, bool) {
 // under resolves named types of the repo to their underlying type
 func (t *translator) under(tp string) string {
 	for i := 0; i < 10; i++ {
-		if basic[tp] || strings.HasPrefix(tp, "[]") || strings.HasPrefix(tp, "*") || strings.HasPrefix(tp, "map[") || tp == "struct{}" || tp == "" || tp == "untyped-int" {
+		if basic[tp] || strings.HasPrefix(tp, "chan ") || strings.HasPrefix(tp, "[]") || strings.HasPrefix(tp, "*") || strings.HasPrefix(tp, "map[") || tp == "struct{}" || tp == "" || tp == "untyped-int" {
 			return tp
 		}
 		k := strings.LastIndex(tp, ".")
@@ -718,6 +733,7 @@ type ftrans struct {
 	switchDepth int    // switch statements entered since the innermost loop began
 	pathVars    map[string]binding // extract: selector paths that are read as variables
 	heapName    string // the heap variable threaded through the function ("" = none)
+	bareReturn  func(e env) node // inside a closure body: what a bare return yields
 }
 
 var leanKeywords = map[string]bool{"at": true, "from": true, "fun": true, "end": true, "open": true, "in": true, "do": true, "then": true,
@@ -1178,6 +1194,9 @@ func (ft *ftrans) selector(c *ast.SelectorExpr, e env, pre *[]prelude) val {
 			}
 			failf("%s.%s is outside the subset", id.Name, c.Sel.Name)
 		}
+	}
+	if b, ok := ft.pathVars[render(c)]; ok {
+		return val{s: b.lean, t: b.typ}
 	}
 	// field of a struct of the repo
 	x := ft.expr(c.X, e, pre)
@@ -1748,6 +1767,9 @@ func (ft *ftrans) callFn(g *fn, recv *val, args []ast.Expr, e env, pre *[]prelud
 	if g.fallible {
 		return val{opt: &optres{term: term, types: g.results}}
 	}
+	if len(g.results) == 0 && len(g.mutated) > 0 {
+		return val{s: term, t: "mutated"} // the updated receiver (mutCallStmt)
+	}
 	if len(g.results) != 1 {
 		if len(g.results) < 2 {
 			failf("call of %s with %d results in an expression", g.cfg.Go, len(g.results))
@@ -2083,6 +2105,9 @@ func (ft *ftrans) block(stmts []ast.Stmt, e env, k cont) node {
 			return n
 		}
 		if ce, ok := s.X.(*ast.CallExpr); ok {
+			if n := ft.mutCallStmt(ce, e, rest); n != nil {
+				return n
+			}
 			if n := ft.updateAssign(nil, token.ASSIGN, ce, e, rest); n != nil {
 				return n
 			}
@@ -2284,6 +2309,9 @@ func (ft *ftrans) ret(s *ast.ReturnStmt, e env) node {
 	ft.inReturn = true
 	defer func() { ft.inReturn = false }()
 	if len(s.Results) == 0 {
+		if ft.bareReturn != nil {
+			return ft.bareReturn(e)
+		}
 		if n == 0 && len(f.mutated) > 0 {
 			return nLeaf{ft.okTerm(tupleOf(ft.mutatedNames()))}
 		}
@@ -3603,9 +3631,13 @@ func (t *translator) translate(g *fn) {
 	if g.err != "" {
 		failf("%s", g.err)
 	}
-	if g.cfg.Extract != nil {
+	if g.cfg.Extract != nil && !g.cfg.Extract.v2() {
 		t.extract(g)
 		return
+	}
+	body := t.translateBody
+	if g.cfg.Extract != nil {
+		body = t.extract2
 	}
 	func() {
 		defer func() {
@@ -3617,10 +3649,10 @@ func (t *translator) translate(g *fn) {
 			}
 		}()
 		g.mayPanic = g.cfg.Fuel
-		t.translateBody(g)
+		body(g)
 	}()
 	if g.mayPanic && g.text == "" {
-		t.translateBody(g)
+		body(g)
 	}
 }
 
